@@ -213,6 +213,47 @@ func polyvalCost(t *target) bool {
 	return false
 }
 
+var longLens = []int{1024, 2048, 4097}
+
+// sivRank is the number of POLYVAL-costly targets before ti (-1 if ti is not one): the quick tier gives the
+// full set of long inputs / the paired modifications to designated AES-GCM-SIV targets only.
+func sivRank(ts []*target, ti int) int {
+	if !polyvalCost(ts[ti]) || ts[ti].Mode != "keyset" || len(ts[ti].Keys) != 1 {
+		return -1
+	}
+	n := 0
+	for i := 0; i < ti; i++ {
+		if polyvalCost(ts[i]) && ts[i].Mode == "keyset" && len(ts[i].Keys) == 1 {
+			n++
+		}
+	}
+	return n
+}
+
+// longCases: (plaintext length, associated-data length) pairs with one long side. Every target gets one long
+// plaintext and one long AD (length rotating); designated AES-GCM-SIV targets (a subtle/16-byte-key and a
+// factory/32-byte-key one in the quick tier) and, in the thorough tier, every core target get all lengths.
+func longCases(ts []*target, ti int, full bool) [][2]int {
+	rk := sivRank(ts, ti)
+	all := (full && core(ts[ti], ti)) || (!full && (rk == 4 || rk == 5))
+	var cs [][2]int
+	for i, l := range longLens {
+		if all || i == ti%3 {
+			cs = append(cs, [2]int{l, 5})
+		}
+		if all || i == (ti+1)%3 {
+			cs = append(cs, [2]int{20, l})
+		}
+	}
+	return cs
+}
+
+// pairTarget: AES-GCM-SIV targets whose long ciphertexts get the paired block modifications (C02)
+func pairTarget(ts []*target, ti int, full bool) bool {
+	rk := sivRank(ts, ti)
+	return rk == 4 || (full && rk >= 0)
+}
+
 var boundaryLens = []int{0, 1, 15, 16, 17, 31, 32, 33, 63, 64, 65, 255, 256, 257}
 
 // ------------------------------------------------------------------ inputs
@@ -300,6 +341,7 @@ type sealReq struct {
 	DekCfg   keyCfg
 	KekNonce []byte
 	Muts     bool // C02: derive mutations from this ciphertext
+	Pairs    bool // C02: long ciphertext for the paired block modifications
 }
 
 func (q sealReq) j(t *target) map[string]any {
@@ -342,6 +384,28 @@ func requests(ts []*target, full bool) []sealReq {
 		} else {
 			lens = []int{0, 1, 16, []int{15, 17, 31, 32, 33, 64, 65, 257}[ti%8]}
 		}
+		emit := func(li, n, adLen, ki int, muts, pairs bool) {
+			q := sealReq{N: len(qs), T: ti, Key: ki, Pt: content(r, n, li+ti), Muts: muts, Pairs: pairs}
+			if adLen >= 0 {
+				q.Ad = content(r, adLen, li+ti+1)
+			} else {
+				q.Ad, _ = adOf(r, li+ti+1)
+			}
+			if t.Mode == "envelope" {
+				d := dekByName(t.DEK)
+				c := d.Cfg
+				c.Variant = "NO_PREFIX"
+				c.Key = mkKey(r, len(c.Key), li+ti)
+				c.MKey = vt.Bytes(r, len(c.MKey))
+				q.DekCfg = c
+				q.DekBytes = serializedKey(c)
+				q.Nonce = nonceOf(r, c.nonceLen(), li+ti)
+				q.KekNonce = nonceOf(r, 12, li+ti+1)
+			} else {
+				q.Nonce = nonceOf(r, t.Keys[ki].nonceLen(), li+ti)
+			}
+			qs = append(qs, q)
+		}
 		for li, n := range lens {
 			for ki := range t.Keys {
 				if t.Mode == "envelope" && ki > 0 {
@@ -350,33 +414,29 @@ func requests(ts []*target, full bool) []sealReq {
 				if ki > 0 && li > 1 {
 					break
 				}
-				q := sealReq{N: len(qs), T: ti, Key: ki, Pt: content(r, n, li+ti), Muts: *prop == "C02" && li == 0}
-				q.Ad, _ = adOf(r, li+ti+1)
+				adLen := -1
 				if *prop == "C01" && li == 3 && ki == 0 { // one specification-made ciphertext with long associated data
-					q.Ad = content(r, []int{256, 8192, 300, 8193}[ti%4], ti/4)
+					adLen = []int{256, 8192, 300, 8193}[ti%4]
 					if !full && polyvalCost(t) {
-						q.Ad = q.Ad[:256+ti%4]
+						adLen = 256 + ti%4
 					}
 				}
-				if t.Mode == "envelope" {
-					d := dekByName(t.DEK)
-					c := d.Cfg
-					c.Variant = "NO_PREFIX"
-					c.Key = mkKey(r, len(c.Key), li+ti)
-					c.MKey = vt.Bytes(r, len(c.MKey))
-					q.DekCfg = c
-					q.DekBytes = serializedKey(c)
-					q.Nonce = nonceOf(r, c.nonceLen(), li+ti)
-					q.KekNonce = nonceOf(r, 12, li+ti+1)
-				} else {
-					q.Nonce = nonceOf(r, t.Keys[ki].nonceLen(), li+ti)
-				}
-				qs = append(qs, q)
+				emit(li, n, adLen, ki, *prop == "C02" && li == 0, false)
 			}
+		}
+		// long inputs (bulk paths of the implementations): plaintext and associated data of 1 KiB, 2 KiB, 4 KiB + 1
+		if *prop == "C01" {
+			for _, c := range longCases(ts, ti, full) {
+				emit(100+c[0]+c[1], c[0], c[1], 0, false, false)
+			}
+		} else if pairTarget(ts, ti, full) {
+			emit(200, 1040, 1088, 0, false, true) // C02: long base for the paired-modification class
 		}
 	}
 	return qs
 }
+
+var gTargets []*target
 
 // ------------------------------------------------------------------ execution
 type runner struct {
@@ -576,6 +636,7 @@ func main() {
 		return
 	}
 	ts := targets(full)
+	gTargets = ts
 	qs := requests(ts, full)
 	if *mode == "plan" {
 		w := vt.NewWriter(*out)
@@ -672,6 +733,10 @@ func runC01(x *runner, t *target, ti int, mine []sealReq, sealed map[int][]byte)
 	x.encrypt(t, content(x.r, 20, ti), content(x.r, bigAD[ti%len(bigAD)], ti/len(bigAD)))
 	if x.full {
 		x.encrypt(t, content(x.r, 33, ti), content(x.r, bigAD[(ti+3)%len(bigAD)], 0))
+	}
+	// long inputs (bulk paths): plaintext / associated data of 1 KiB, 2 KiB, 4 KiB + 1
+	for ci, c := range longCases(gTargets, ti, x.full) {
+		x.encrypt(t, content(x.r, c[0], ci+ti), content(x.r, c[1], ci+ti+1))
 	}
 	// spec -> Tink: ciphertexts made by the TLA+ reference with chosen nonces
 	for _, q := range mine {
